@@ -377,15 +377,18 @@ func c18() int {
 	brokenBodies := c18BrokenBodies(rep, kinds)
 	cov := evid.Coverage{
 		"broken_body_requests": brokenBodies,
-		"evaluations":         int(evals),
-		"distinct_nontrivial": int(nontrivial),
-		"rule":                fmt.Sprintf("every sequence of length 1..%d over %d element kinds (3 create outcomes, add-metadata ok/missing target, revert, delete-metadata, unknown action, 2 malformed) x continueOnFailure x idempotency-key mode (none / distinct / equal kinds share a key) x entry point (ProcessBulk, POST /v2/{ledger}/_bulk), on a real Commander over memstore; a twin engine executing the same operations one by one predicts each outcome; non-trivial = at least one processed element fails", maxLen, len(kinds)),
-		"samples":             samples.Got,
-		"exhaustive":          true,
-		"sequences":           len(seqs),
-		"outcome_patterns":    len(patterns.M),
+		"evaluations":          int(evals),
+		"distinct_nontrivial":  int(nontrivial),
+		"rule":                 fmt.Sprintf("every sequence of length 1..%d over %d element kinds (3 create outcomes, add-metadata ok/missing target, revert, delete-metadata, unknown action, 2 malformed) x continueOnFailure x idempotency-key mode (none / distinct / equal kinds share a key) x entry point (ProcessBulk, POST /v2/{ledger}/_bulk), on a real Commander over memstore; a twin engine executing the same operations one by one predicts each outcome; non-trivial = at least one processed element fails", maxLen, len(kinds)),
+		"samples":              samples.Got,
+		"exhaustive":           true,
+		"sequences":            len(seqs),
+		"outcome_patterns":     len(patterns.M),
 	}
 	rep.Assume = []string{"an element that cannot be executed (unknown action, malformed data) counts as a failing element and is owed a result at its position"}
+	// the engine on the real store, against the stand-in the enumeration above ran on (realstore.go)
+	rsH, rsS := realStoreConformance(rep, "")
+	cov["realstore_histories"], cov["realstore_steps"] = rsH, rsS
 	return rep.Finish(cov)
 }
 
